@@ -327,11 +327,11 @@ def generate(ctx):
             i += 1
     # random strings
     types = sorted(R.residue)
-    for n in range(ctx.scale(450, 2400)):
+    for n in range(ctx.scale(1500, 3000)):
         typ = types[n % len(types)]
         seq = _random_codes(ctx, R, typ, _length(ctx))
         yield 'sequence', {'type': typ, 'raw': _decorate(ctx, seq)}
-    for n in range(ctx.scale(150, 800)):
+    for n in range(ctx.scale(400, 800)):
         typ = types[n % len(types)]
         seq = _random_codes(ctx, R, typ, max(2, _length(ctx)))
         p = list(seq)
@@ -340,7 +340,7 @@ def generate(ctx):
             p.sort()
         yield 'permutation', {'type': typ, 'a': _decorate(ctx, seq), 'b': _decorate(ctx, ''.join(p))}
     # (c) files
-    for n in range(ctx.scale(60, 250)):
+    for n in range(ctx.scale(150, 300)):
         yield 'fasta_file', _file_case(ctx, R)
 
 
@@ -367,12 +367,13 @@ def check_table_row(ctx, case):
     ctx.evaluated(what='stands-for')
     want = IUPAC[fam].get(code)
     got = R.stands_for[typ][code]
-    if want is None:
-        ctx.count('observe.code_without_iupac_entry')
-    elif got == code and len(want) > 1:
-        ctx.violation('%s is an ambiguity code (%s) but the table defines it as a residue of its own' % (what, want),
-                      field='stands-for')
-    elif got != code and sorted(got) != sorted(want):
+    if got == code:
+        if want is not None and want != code:
+            ctx.violation('%s stands for %r but the table defines it as a residue of its own' % (what, want),
+                          field='stands-for')
+    elif want is None:
+        ctx.count('observe.averaged_code_without_iupac_entry')
+    elif sorted(got) != sorted(want):
         ctx.violation('%s is averaged over %r, it stands for %r' % (what, got, want), field='stands-for')
     # transcription pin of the unambiguous rows
     if got == code:
